@@ -23,7 +23,12 @@
    * [lr_terminates_stmt]: for every automaton passing [validS] and [validE]
      (NO completeness condition: conflict-resolved tables are covered) over an
      acyclic grammar without hidden left recursion, the interpreter returns on
-     every input within [lr_fuel]. *)
+     every input within [lr_fuel].  [lr_terminates_b_stmt]: the same with the
+     two boolean certificates as hypotheses (what a check evaluates on a dump).
+   * [lr_terminates_validated_stmt]: for validated complete (conflict-free)
+     tables -- validS, validC, validE, productive and acyclic grammar -- nothing
+     is assumed about hidden left recursion: validC excludes it for every rule
+     that occurs in a sentential form (TermHLR.v). *)
 From Coq Require Import List Arith NArith Bool Lia.
 From GV Require Import Base.Grammar Base.Analyses LR.Automaton LR.Validator LR.Spec.
 Import ListNotations.
